@@ -641,6 +641,7 @@ func apiCall(op reuseOp, sql string) callOutcome {
 			r := parser.ParseMultiWithRecovery(conv)
 			stmts, errs = r.Statements, r.Errors
 			r.Release()
+			r.Release() // documented as safe: a second Release must not return the parser to the pool again
 		case "pool.parser":
 			// a holder that configures a pooled parser, uses it with positions, and returns it
 			p := parser.GetParser()
@@ -683,6 +684,11 @@ func runAPIHistory(h reuseHist, inputs []string) reuseOut {
 	drain()
 	for _, op := range h.Ops {
 		apiCall(op, sqlOf(op))
+	}
+	// no history may leave one instance in a pool twice: two holders would then share it
+	if dup := poolHandsOutDuplicates(); dup != "" {
+		out.Mismatch = dup
+		return out
 	}
 	used := apiCall(h.Probe, sqlOf(h.Probe))
 	drain() // empty pools: the same call now runs on newly constructed objects
@@ -749,4 +755,46 @@ func init() {
 		}
 		return 0
 	}
+}
+
+// poolHandsOutDuplicates takes several instances out of the parser and tokenizer pools at once: they must be pairwise
+// distinct objects (a double Put of one instance makes two later holders share it).  The instances are put back once.
+func poolHandsOutDuplicates() string {
+	const n = 4
+	ps := make([]*parser.Parser, 0, n)
+	res := ""
+	for i := 0; i < n; i++ {
+		p := parser.GetParser()
+		for _, q := range ps {
+			if q == p {
+				res = "the parser pool handed out the same instance to two holders at once"
+			}
+		}
+		ps = append(ps, p)
+	}
+	seenP := map[*parser.Parser]bool{}
+	for _, p := range ps {
+		if !seenP[p] {
+			seenP[p] = true
+			parser.PutParser(p)
+		}
+	}
+	ts := make([]*tokenizer.Tokenizer, 0, n)
+	for i := 0; i < n; i++ {
+		t := tokenizer.GetTokenizer()
+		for _, q := range ts {
+			if q == t {
+				res = "the tokenizer pool handed out the same instance to two holders at once"
+			}
+		}
+		ts = append(ts, t)
+	}
+	seenT := map[*tokenizer.Tokenizer]bool{}
+	for _, t := range ts {
+		if !seenT[t] {
+			seenT[t] = true
+			tokenizer.PutTokenizer(t)
+		}
+	}
+	return res
 }
